@@ -1302,6 +1302,11 @@ func parseScn(op string) (*scenario, bool) {
 			if !sc.real || sc.body < 1 || (p == "rbody" && sc.body > 100000) {
 				return nil, false
 			}
+			// the origin parks after it has written half of the body: impossible while the client of a
+			// large response does not read
+			if sc.stall > 0 && sc.body > 100000 {
+				return nil, false
+			}
 		case "tunnel", "cdial", "creqmod", "cresmod": // blind CONNECT tunnel (no MITM)
 			if sc.mitm {
 				return nil, false
@@ -1645,8 +1650,8 @@ func runScenario(sc *scenario) (trace []string, v verdict, counted map[int]bool)
 			clients[k].resume()
 		}
 		for _, k := range stalled {
-			if !waitCh(w.byIdx[k].closed, 5*stepDeadline) {
-				v.set("c07:conn-not-closed", "connection %d (parked in %s, client stalled %d ms) was not closed within %v of its client reading again", k, sc.pts[k], sc.stall, 5*stepDeadline)
+			if !waitCh(w.byIdx[k].closed, 3*stepDeadline) {
+				v.set("c07:conn-not-closed", "connection %d (parked in %s, client stalled %d ms) was not closed within %v of its client reading again", k, sc.pts[k], sc.stall, 3*stepDeadline)
 			}
 		}
 	}
@@ -2401,7 +2406,8 @@ func stallScn(r *core.Rand, stall int, real bool, defaultBufs bool) string {
 	}
 	pool := []string{"reqmod", "rt", "resmod", "write"}
 	if real {
-		pool = []string{"rt", "wbody", "reqmod", "resmod", "write"}
+		// (not wbody: with a client that does not read, the origin cannot get half of a multi-MiB body out)
+		pool = []string{"rt", "reqmod", "resmod", "write"}
 	}
 	pts := make([]string, n)
 	x, q, s := make([]int, n), make([]int, n), make([]int, n)
@@ -2480,8 +2486,9 @@ func (P) Gen(r *core.Rand, tier string, emit func(ops []string)) {
 		for i := 0; i < 200; i++ {
 			emit([]string{fmt.Sprintf("race c=%d d=%d", r.Pick2(r.Range(1, 6), r.Range(7, 32)), r.Pick2(0, r.Range(0, 3000)))})
 		}
-		// slow clients: 8 scenarios, stalls of 6.5 .. 15 s, stub and real transport, small and default socket buffers
-		for i, st := range []int{6500, 7000, 8000, 9000, 11000, 15000} {
+		// slow clients: 8 scenarios, stalls of 6.5 .. 12 s (an op must end within core.OpTimeout = 30 s also on a
+		// loaded machine), stub and real transport, small and default socket buffers
+		for i, st := range []int{6500, 7000, 8000, 9000, 10000, 12000} {
 			emit([]string{stallScn(r, st, i%2 == 1, false)})
 		}
 		emit([]string{stallScn(r, 7000, false, true)})
